@@ -16,7 +16,7 @@ import register_crypto_plugin as plugin
 LEVEL = "exploration"
 RULE = ("E1: ('len', L, zrun, key, framing, decl) = full product of every content length 1..N x trailing-zero run {0,1,2,15,16,17} (all-zero "
         "content when the run covers it) x 5 session keys x {BF3, BEC2} for a hand-built component carrying the ENC tag, declared length "
-        "{len, half}; ('cfg', config, key, framing) = set_config with 4 configurations; ('hist', ops) = every operation sequence of length <= 4 (5 thorough) on ONE live file object over {write with key 1 / key 2, replace the encrypted blob by 3 contents, set_config A / B, shorten the declared length} that contains at least two writes; ('fault', framing, i) = cipher unregistered, and the "
+        "{len, half}; ('cfg', config, key, framing) = set_config with 4 configurations; ('hist', ops) = every operation sequence of length <= 4 (5 thorough) on ONE live file object over {write with key 1 / key 2, replace the encrypted blob by 3 contents, set_config A / B, shorten the declared length, continue with the object READ BACK from the last written file} that contains at least two writes; ('fault', framing, i) = cipher unregistered, and the "
         "cipher failing at its i-th call for EVERY call index of the write. Oracle: stored payload == reference AES-128-CBC(zero IV, key, "
         "zero-padded content) at the place the independent parser finds it; read-back blob[:declared] == content with the encrypted flag; no "
         "needle (content, 8-byte windows of high-entropy values, session key, security code, customer key) in the binary or hex text; "
@@ -161,7 +161,7 @@ def check_written(ctx, o, framing, content_list, comps_real, key, extra_needles,
     return o
 
 
-HIST_OPS = [("write", 0), ("write", 1), ("blob", 0), ("blob", 1), ("blob", 2), ("cfg", 0), ("cfg", 1), ("declared", 0)]
+HIST_OPS = [("write", 0), ("write", 1), ("blob", 0), ("blob", 1), ("blob", 2), ("cfg", 0), ("cfg", 1), ("declared", 0), ("readback", 0)]
 
 
 def run_history(ctx, o, seq):
@@ -171,9 +171,22 @@ def run_history(ctx, o, seq):
     comp = Bf3Component(dict(TAGS_ENC), blobs[0], None, encrypt_by_session_key=True)
     f = Bf3File({"Note": "hist"}, [Bf3Component({0xC1: b"\x00"}, ctx.sym("c06-plain", 21)), comp])
     writes = 0
+    last = None
     for step, oi in enumerate(seq):
         op, arg = HIST_OPS[oi]
-        if op == "blob":
+        enc_comps = [c for c in f.components if c.encrypt_by_session_key or c.description.get(0xC2) == b"\x02"]
+        comp = enc_comps[-1] if enc_comps else None
+        if op == "readback":
+            # continue with the object obtained by READING the last written file (its components were built by the reader)
+            if last is None:
+                return Outcome("no-file-written-yet", False)
+            f = Bf3File.read_file(io.StringIO(last[0]), True, last[1])
+            for c in f.components:
+                if c.description.get(0xC2) == b"\x02":
+                    c.blob = c.blob[:c.actual_len]          # the reader hands back the zero-padded content
+        elif comp is None:
+            return Outcome("no-encrypted-component", False)
+        elif op == "blob":
             comp.blob = blobs[arg]
             comp.actual_len = len(blobs[arg])
         elif op == "declared":
@@ -185,6 +198,7 @@ def run_history(ctx, o, seq):
             stream = io.StringIO()
             f.write_file(stream, key)
             text = stream.getvalue()
+            last = (text, key)
             writes += 1
             binary = text_to_binary(text)
             try:
@@ -192,7 +206,7 @@ def run_history(ctx, o, seq):
             except L.Reject as r:
                 return o.viol("history|layout", "after operations %r the written file is rejected by the independent parser: %s" % (seq[:step + 1], r))
             for i, c in enumerate(f.components):
-                if not c.encrypt_by_session_key:
+                if not (c.encrypt_by_session_key or c.description.get(0xC2) == b"\x02"):
                     continue
                 exp = A.cbc_encrypt(key, A.zero_pad(c.blob))
                 if parsed[i]["stored"] != exp:
@@ -201,7 +215,8 @@ def run_history(ctx, o, seq):
                         [HIST_OPS[x] for x in seq[:step + 1]], i))
             back = Bf3File.read_file(io.StringIO(text), True, key)
             for c, b in zip(f.components, back.components):
-                if c.encrypt_by_session_key and (b.blob[:b.actual_len] != c.blob[:c.actual_len] or b.actual_len != c.actual_len):
+                if (c.encrypt_by_session_key or c.description.get(0xC2) == b"\x02") and (
+                        b.blob[:b.actual_len] != c.blob[:c.actual_len] or b.actual_len != c.actual_len):
                     o.cls = "history-dependent"
                     return o.viol("history|read-back", "after operations %r reading back does not return the current content" % ([HIST_OPS[x] for x in seq[:step + 1]],))
     o.extra = {"history_writes": writes}
